@@ -76,7 +76,8 @@ class UnionSpecifier(VersionSpecifier):
                 == {0}
             ):
                 epoch = "" if left.max.epoch == 0 else f"{left.max.epoch}!"
-                version = ".".join(map(str, left.max.release[:first_different])) + ".*"
+                # take the prefix from the zero-padded release: "<1||>=1.1.0" is "!=1.0.*"
+                version = ".".join(map(str, left_stable[1 : first_different + 1])) + ".*"
                 return f"!={epoch}{version}"
 
         return None
